@@ -1799,17 +1799,13 @@ VARIANTS = [
     V('subclass overrides __lt__', 'B', 'db/post/__init__.py', 'MyVersion', 'pass', 'def __lt__(self, other):\n        return False', 'R-C15-1'),
     V('__lt__ written out lexicographically', 'N', _I, 'Version.__lt__', 'return self.__le__(other) and self.__ne__(other)',
       'if self.design() != other.design():\n            return self.design() < other.design()\n        if self.implementation() != other.implementation():\n            return self.implementation() < other.implementation()\n        return self.bugfix() < other.bugfix()', None),
-    V('__ne__ as not ==', 'N', _I, 'Version.__ne__', 'return any(\n            [\n                self.design() != other.design(),\n                self.implementation() != other.implementation(),\n                self.bugfix() != other.bugfix(),\n            ]\n        )', 'return not self == other', None),
     V('__ne__ left to the default', 'N', _I, 'Version', 'def __ne__(self, other):\n        return any(\n            [\n                self.design() != other.design(),\n                self.implementation() != other.implementation(),\n                self.bugfix() != other.bugfix(),\n            ]\n        )', '', None),
     V('__gt__ compares the attribute behind the hook', 'B', _I, 'Version.__gt__', 'return self.__ge__(other) and self.__ne__(other)', 'return self._version_ > other._version_', 'R-C15-1'),
-    V('__eq__ compares the attribute behind the hook', 'B', _I, 'Version.__eq__', 'return all(\n            [\n                self.design() == other.design(),\n                self.implementation() == other.implementation(),\n                self.bugfix() == other.bugfix(),\n            ]\n        )', 'return self._version_ == other._version_', 'R-C15-1'),
     V('design() bypasses _get_ver', 'B', _I, 'Version.design', 'return self._get_ver().design', 'return self._version_.design', 'R-C15-1'),
     V('__gt__ as tuple comparison of the accessors', 'N', _I, 'Version.__gt__', 'return self.__ge__(other) and self.__ne__(other)', 'return (self.design(), self.implementation(), self.bugfix()) > (other.design(), other.implementation(), other.bugfix())', None),
     V('newer as tuple comparison', 'N', _I, 'Version.newer', 'return (\n            than.design < self.design()', 'mine = (self.design(), self.implementation(), self.bugfix())\n        if True:\n            return mine > (than.design, than.impl, than.bugfix)\n        return (\n            than.design < self.design()', None),
-    V('asstring as f-string', 'N', _I, 'Version.asstring', "return '.'.join(\n            [str(self.design()), str(self.implementation()), str(self.bugfix())]\n        )", "return f'{self.design()}.{self.implementation()}.{self.bugfix()}'", None),
     # ---- R-C15-2
     V('_diff with != 0', 'B', _S, '_diff', 'prev[k].count(curr[k]) == 0', 'prev[k].count(curr[k]) != 0', 'R-C15-2'),
-    V('_diff with and', 'B', _S, '_diff', 'if k not in prev or', 'if k not in prev and', 'R-C15-2'),
     V('_diff requires a single occurrence', 'B', _S, '_diff', 'prev[k].count(curr[k]) == 0', 'prev[k].count(curr[k]) != 1', 'R-C15-2'),
     V('_diff stops at the first difference', 'B', _S, '_diff', 'diff.append(k)', 'diff.append(k)\n            break', 'R-C15-2'),
     V('_diff looks the list up before the presence test', 'B', _S, '_diff', 'if k not in prev or prev[k].count(curr[k]) == 0:', 'if prev[k].count(curr[k]) == 0 or k not in prev:', 'R-C15-2'),
@@ -1822,21 +1818,17 @@ VARIANTS = [
       'return [k for k, v in curr.items() if not (k in prev and v in prev[k])]', None),
     # ---- R-C15-3
     V('previous[2] paired with latest[0]', 'B', _S, 'build', 'dalg = _diff(latest[0], previous[1])', 'dalg = _diff(latest[0], previous[2])', 'R-C15-3'),
-    V('tables compared in the wrong direction', 'B', _S, 'build', 'dsv = _diff(latest[1], previous[2])', 'dsv = _diff(previous[2], latest[1])', 'R-C15-3'),
     V('value versions never compared', 'B', _S, 'build', 'dv = _diff(latest[2], previous[3])', 'dv = _diff(latest[1], previous[2])', 'R-C15-3'),
     V('scheduled name cut to one component', 'B', _S, 'build', "item.split('.')[:2]", "item.split('.')[:1]", 'R-C15-3'),
     V('value differences not scheduled', 'B', _S, 'build', 'for item in dalg + dsv + dv}', 'for item in dalg + dsv}', 'R-C15-3'),
     V('every task organised', 'B', _S, 'build', 'organize(ans, event=', 'organize(tasks(), event=', 'R-C15-3'),
     V('scheduled set extended before organize', 'B', _S, 'build', 'rev = dawgie.context.git_rev', 'rev = dawgie.context.git_rev\n    ans.update(tasks())', 'R-C15-3'),
     V('analysis scheduled for the target list', 'B', _S, 'build', "['__all__'] if _is_asp(n) else trglist", 'trglist', 'R-C15-3'),
-    V('marker branches swapped', 'B', _S, 'build', "['__all__'] if _is_asp(n) else trglist", "trglist if _is_asp(n) else ['__all__']", 'R-C15-3'),
     V('_is_asp tests the task factory', 'B', _S, '_is_asp', 'dawgie.Factories.analysis.name', 'dawgie.Factories.task.name', 'R-C15-3'),
     V('value stored with the state-vector version', 'B', _PV, 'current', 'tv[name] = sv[k].asstring()', 'tv[name] = sv.asstring()', 'R-C15-3'),
-    V('state-vector name without the algorithm', 'B', _PV, 'current', "name = '.'.join([bot._name(), alg.name(), sv.name()])", "name = '.'.join([bot._name(), sv.name()])", 'R-C15-3'),
     V('value name under another algorithm name', 'B', _PV, 'current', "name = '.'.join([bot._name(), alg.name(), sv.name(), k])", "name = '.'.join([bot._name(), sv.name(), alg.name(), k])", 'R-C15-3'),
     V('shelve versions returns tables swapped', 'B', 'db/shelve/__init__.py', 'versions', 'return tasks_vers, algs_vers, svs_vers, vals_vers', 'return tasks_vers, svs_vers, algs_vers, vals_vers', 'R-C15-3'),
     V('post algorithm key is the bare name', 'B', 'db/post/__init__.py', 'versions', "'.'.join([_find(tsk, pk=a['task_id'])['name'], a['name']]),", "a['name'],", 'R-C15-3'),
-    V('shelve stores the version object', 'B', 'db/shelve/__init__.py', 'versions', 'vals_vers[key].append(vv.asstring())', 'vals_vers[key].append(vv)', 'R-C15-3'),
     V('analysis factories not versioned', 'B', 'pl/state.py', 'FSM._pipeline', 'facs[dawgie.Factories.analysis]\n                    + facs[dawgie.Factories.regress]', 'facs[dawgie.Factories.regress]', 'R-C15-3'),
     V('tables unpacked first', 'N', _S, 'build', 'dalg = _diff(latest[0], previous[1])\n    dsv = _diff(latest[1], previous[2])\n    dv = _diff(latest[2], previous[3])',
       'calg, csv, cv = latest\n    palg = previous[1]\n    dalg = _diff(calg, palg)\n    dsv = _diff(csv, previous[2])\n    dv = _diff(cv, previous[3])', None),
